@@ -519,3 +519,85 @@ def check_narrow_compare(ck, prog, config, clause, units, what='file-supplied'):
               '%d comparisons in %s: no operand is narrowed before it is compared' % (n, ', '.join(sorted(units))),
               config=config)
     ck.min_instances('comparisons inspected for narrowed operands', n, 20)
+
+
+# ------------------------------------------------------------------ R6.end-of-data
+def check_end_of_data(ck, prog, config, clause, advancer='comp_end_dchunk', idx='data_idx', eof='data_eof'):
+    """The function that ends a chunk on the read side advances the reader's chunk pointer, possibly to NULL (the
+    last chunk).  Every caller must, after a successful call and before it returns success or starts another
+    iteration, have looked at the pointer, and on the edge where it is NULL have set the end-of-data flag: a reader
+    left with the pointer NULL and the flag clear is in the 'not started' state and the next read fails or starts
+    over.  (If the advancing function sets the flag itself, the callers have nothing to do.)"""
+    adv = prog.need_func(advancer)
+    own = any(strip(l).op == eof for (l, r, op, node) in assigned_fields(adv))
+    callers = [f for f in sorted(prog.lib_funcs(), key=lambda f: f.qname) if f is not adv and calls_of(f, (advancer,))]
+    ck.require(bool(callers), '%s has no caller' % advancer)
+    if own:
+        ck.ob(clause, 'R6.end-of-data', adv.name, 'flag', True, '%s() sets %s itself' % (advancer, eof), adv.file, adv.line,
+              config=config, trivial=True)
+        return
+
+    class Eod(FactRule):
+        name = 'R6.end-of-data'
+
+        def __init__(s, prog, fn):
+            FactRule.__init__(s, prog, fn)
+            s.calls = 0
+
+        def on_edge(s, c2, node, label, refined, ts):
+            if c2.fn is not s.fn:
+                return ts
+            for expr, origins, before, after in refined:
+                if advancer in origin_names(origins):
+                    if after & ~(P1 | POS) == 0:
+                        ts = ts | frozenset(['advanced'])
+            op, l, r = atom_cmp(node.e, label)
+            if last_field(l) == idx and strip(l).k == 'mem' and const_value(r) == 0:
+                if op == '==' and 'advanced' in ts:
+                    ts = (ts - frozenset(['advanced'])) | frozenset(['at-end'])
+                elif op == '!=':
+                    ts = ts - frozenset(['advanced', 'at-end'])
+            return ts
+
+        def after_call(s, c2, call, ts, mask):
+            if c2.fn is s.fn and callee_name(call) == advancer:
+                s.calls += 1
+                # a call whose result is not tested on this path: success is possible
+                if mask & (P1 | POS) and not (mask & ~(P1 | POS)):
+                    ts = ts | frozenset(['advanced'])
+            return ts
+
+        def on_assign(s, c2, lhs, rhs, op, value, ts):
+            if c2.fn is s.fn and last_field(lhs) == eof and op == '=' and rhs is not None and const_value(rhs) not in (None, 0):
+                ts = ts - frozenset(['at-end'])
+            if c2.fn is s.fn and last_field(lhs) == idx and strip(lhs).k == 'mem' and op == '=':
+                ts = ts - frozenset(['advanced', 'at-end'])      # repositioned (seek to a chunk)
+            return ts
+
+        def check(s, c2, node, ts, what):
+            if 'advanced' in ts:
+                s.violate(c2, 'unexamined', '%s after a successful %s() without looking at %s: when that was the last '
+                          'chunk the pointer is NULL and %s stays clear, so the next read fails (or starts over) instead '
+                          'of returning 0' % (what, advancer, idx, eof), inst='examined', node=node)
+            elif 'at-end' in ts:
+                s.violate(c2, 'flag-not-set', '%s with %s known to be NULL after %s() but %s not set' % (
+                    what, idx, advancer, eof), inst='flag', node=node)
+
+        def on_node(s, c2, node, ts):
+            if c2.fn is s.fn and node.loop is not None:
+                s.check(c2, node, ts, 'the next iteration starts')
+                ts = ts - frozenset(['advanced', 'at-end'])
+            return ts
+
+        def on_return(s, c2, node, mask, ts):
+            if c2.fn is s.fn and mask & (Z | P1 | POS):
+                s.check(c2, node, ts, 'return %s' % (show(node.e) if node.e is not None else ''))
+            return ts
+    for fn in callers:
+        r = Eod(prog, fn)
+        run_rule(prog, fn, r)
+        ck.ob(clause, 'R6.end-of-data', fn.name, 'after-%s' % advancer, not r.violations,
+              'after every successful %s() the chunk pointer is examined and %s is set when it is NULL (%d call '
+              'state(s))' % (advancer, eof, r.calls) if not r.violations else r.violations[0].msg, fn.file,
+              r.violations[0].node.line if r.violations else fn.line,
+              path=r.violations[0].path if r.violations else None, config=config)
